@@ -34,6 +34,10 @@ P('C04','must-pass-through (MPT) rules on the CFG incl. closure call sites, pick
   "Decides the structural necessary conditions of weighted distribution on every path: each mutator of Route.Targets / Target.FixedWeight rebuilds the ring before returning (count-guarded skip accepted), pickers select from the ring with the index taken from the atomic RMW result, a positive weight gets >= 1 slot and only positive weights do, zero-slot targets are skipped, ring arithmetic and allocation are guarded, weights are finite. The arithmetic claims (weights sum to one, share within 1/10000, proportional scaling) range over floating-point values and are not decided.",
   COMMON_NOTE)
 
+P('C18','sibling agreement over the implementations of proxy.Server.Shutdown, acquire/release pairing on all CFG paths, ordering and join (WaitGroup) rules, who-may-call rule for Serve',
+  "Decides per implementation and per path the structural necessary conditions of a bounded, draining shutdown: every Shutdown(ctx) uses its context and makes no synchronous unbounded wait; proxy.Shutdown fans out with WithTimeout(Background, wait), joins correctly and releases the registry lock before waiting; main passes proxy.shutdownwait; every lock in proxy and proxy/tcp is released on all paths; tcp.Server closes listeners before and connections after the wait; only serve() and the composite server start servers; the exit callback deregisters, sleeps the grace period, then shuts down. Wall-clock bounds are timing and not decided.",
+  COMMON_NOTE)
+
 checks=[]; na=[]
 for p in props:
     id=p['id']
